@@ -12,10 +12,10 @@ import (
 type Role int
 
 const (
-	Operand Role = iota
-	Prefix       // operand parsed at the unary level
-	InfixLeft    // left-associative binary operator
-	AssignRight  // right-associative, value parsed at the lowest level
+	Operand     Role = iota
+	Prefix           // operand parsed at the unary level
+	InfixLeft        // left-associative binary operator
+	AssignRight      // right-associative, value parsed at the lowest level
 	Postfix
 	LParen
 	RParen
